@@ -43,6 +43,10 @@ def check(model: Model, rep: Report, tier: str):
         k10(model, rep, "C07.A10")
     with rep.isolated():
         a11(model, rep, "C07.A11")
+    from .c08 import s2
+    with rep.isolated():
+        share_rule(rep, model, s2, "C07.A12", "circuit-level index i is position i of the exported Stim measurement record: the exporter walks the nodes in listing order, the same "
+                   "order the registry counts in (= C08.S2)")
     from .c05 import check_registry_copy
     rep.rule("C07.A6", "copies re-target their acquisition registry through the lookup (= C05.K6) and every sub-circuit handed to add() takes the copying path (= C02.L7)")
     with rep.isolated():
